@@ -5,6 +5,16 @@ def main():
     unit = core.load_unit(sys.argv[1])
     names = sys.argv[2:] or None
     os.environ.setdefault('VX_KEEP', '1')
+    if os.environ.get('VX_COMPILE_ONLY'):
+        import subprocess
+        try:
+            text, info = core.build_unit_text(unit, lower.Source(core.HEADER))
+        except lower.ExtractionBreak as e:
+            print('EXTRACTION BREAK:', e); sys.exit(2)
+        path = os.path.join(core.scratch(), unit.name + '.c')
+        open(path, 'w').write(text + '\nint main(void){return 0;}\n')
+        p = subprocess.run(['goto-cc', path, '-o', path + '.gb'], stdout=subprocess.PIPE, stderr=subprocess.STDOUT)
+        print(path); print(p.stdout.decode()[-3000:]); sys.exit(p.returncode)
     try:
         res, info = core.verify_unit(unit, names, cover=not os.environ.get('VX_NOCOVER'))
     except lower.ExtractionBreak as e:
